@@ -2,18 +2,15 @@
    Property theorems only; proofs are in Proofs/NameProtocol.v, Proofs/ForceField.v
    and the generated obligations in Generated/C03Table.v.
 
-   Scope of the four *_names_table theorems: for EVERY optimisation-object instance
-   of the generated table (every optimisable residue type x chain position x
-   terminus-charge option, atom names as the real pipeline presents them), for EVERY
-   sequence of protocol steps and oracle answers (any length), the run never raises /
-   never corrupts the residue, and completing it leaves exactly the expected names.
-   The statement for residues OUTSIDE the table (arbitrary name lists) is not proved:
+   Flip, Alcoholic and Water are proved for ARBITRARY residues (any ordered name list
+   meeting the boolean well-formedness predicate wf_*, defined in Model/NameProtocol.v);
+   the generated table instances meet wf_* (vm_compute obligation), so the *_table
+   theorems are corollaries.  Carboxylic is proved per table instance only (reachable-set
+   certificate): C03_carboxylic_names_partial.  Its parametric statement, still open:
 
-     forall base mv, NoDup base -> incl mv base -> (forall x, In x base -> placeholder x = false) ->
-       proto_ok (flip_step mv) flip_complete base (flip_start base mv)      (and alike for the others)
-
-   is left open; the table is regenerated from /repo on every run instead. *)
-From Coq Require Import String List Bool Permutation.
+     forall c base, wf_carb c base = true -> forall ord lf,
+       proto_ok (carb_step c) (carb_complete c) (carb_expected c base) (carb_start c ord lf base) *)
+From Coq Require Import String List Bool Permutation Arith.
 From PV Require Import Lib.Strings Model.NameProtocol Proofs.NameProtocol Generated.C03Table.
 From PV Require Model.ForceField Proofs.ForceField.
 Import ListNotations.
@@ -33,26 +30,53 @@ Theorem C03_good_names_meaning : forall e l, good_names e l = true ->
   NoDup l /\ (forall x, In x l <-> In x e) /\ (forall x, In x l -> placeholder x = false).
 Proof. exact good_names_spec. Qed.
 
+(* ---- parametric: every residue ------------------------------------------------
+   proto_ok step complete expected start  :=  start is not Error, and for EVERY label
+   list ls: the run never reaches Error, and from wherever it stops complete yields
+   names l with NoDup l, (In x l <-> In x expected), no placeholder in l. *)
+
+(* Flip, any residue: base = its ordered atom names, mv = the moveable names.
+   wf_flip: names distinct, mv distinct and a sub-list of base, no name of the residue is a
+   placeholder (ends in "FLIP", starts with "LP", is "FLIP") - hence no xFLIP copy clashes. *)
+Theorem C03_flip_names : forall base mv, wf_flip base mv = true ->
+  proto_ok _ _ (flip_step mv) flip_complete base (flip_start base mv).
+Proof. exact flip_names_param. Qed.
+
+(* Alcoholic, any residue with hydroxyl/thiol hydrogen h (present or absent on entry).
+   wf_alc: names distinct, no name is a placeholder (so LP1/LP2 are free and complete
+   deletes nothing else), h is not a placeholder.  Expected: base without h, then h. *)
+Theorem C03_alcoholic_names : forall h base, wf_alc h base = true ->
+  proto_ok _ _ (alc_step h) (alc_complete h) (alc_expected h base) (alc_start h base).
+Proof. exact alc_names_param. Qed.
+
+(* Water, any residue.  wf_wat: names distinct, no placeholder, not (H2 without H1) -
+   exactly the complement of C03_water_names_refuted.  Expected: base + missing H1, H2. *)
+Theorem C03_water_names : forall base, wf_wat base = true ->
+  proto_ok _ _ wat_step wat_complete (wat_expected base) (wat_start base).
+Proof. exact wat_names_param. Qed.
+
+(* ---- table instances (corollaries; instances_wf is a generated obligation) ------ *)
+
 (* Flip (HIS family, ASN, GLN): any sequence of fix_flip(atom)/finalize, then complete *)
 Theorem C03_flip_names_table : forall i mv, In i instances -> i_kind i = KFlip mv ->
   proto_ok _ _ (flip_step mv) flip_complete (i_expected i) (flip_start (i_base i) mv).
-Proof. intros i mv. exact (flip_table_sound instances i mv instances_ok). Qed.
+Proof. intros i mv. exact (flip_table_param instances i mv instances_wf). Qed.
 
 (* Alcoholic (SER, THR, TYR, CYS): any sequence of try_donor/try_acceptor outcomes
    (incl. the undo of try_both) and finalize, then complete *)
 Theorem C03_alcoholic_names_table : forall i h, In i instances -> i_kind i = KAlc h ->
   proto_ok _ _ (alc_step h) (alc_complete h) (i_expected i) (alc_start h (i_base i)).
-Proof. intros i h. exact (alc_table_sound instances i h instances_ok). Qed.
+Proof. intros i h. exact (alc_table_param instances i h instances_wf). Qed.
 
 (* Water: O alone or O+H1+H2 on input *)
 Theorem C03_water_names_table : forall i, In i instances -> i_kind i = KWat ->
   proto_ok _ _ wat_step wat_complete (i_expected i) (wat_start (i_base i)).
-Proof. intros i. exact (wat_table_sound instances i instances_ok). Qed.
+Proof. intros i. exact (wat_table_param instances i instances_wf). Qed.
 
 (* Carboxylic (ASH, GLH), for every order / longflag decision of __init__, followed
    by HydrogenRoutines.cleanup.  Oracle assumption carried by the model: finalize's
    bestatom is None only when hlist is empty (some hydrogen has energy < 999.99). *)
-Theorem C03_carboxylic_names_table : forall i c ord lf, In i instances -> i_kind i = KCarb c ->
+Theorem C03_carboxylic_names_partial : forall i c ord lf, In i instances -> i_kind i = KCarb c ->
   proto_ok _ _ (carb_step c) (carb_complete c) (i_expected i) (carb_start c ord lf (i_base i)).
 Proof. intros i c ord lf. exact (carb_table_sound instances i c ord lf instances_ok). Qed.
 
@@ -88,6 +112,48 @@ Theorem C03_water_names_refuted :
   exists s', wat_complete (mkP ["O"; "H2"]%string false [] []) tt = Next s' [] /\
              names s' = ["O"; "H2"]%string.
 Proof. eexists. split; vm_compute; reflexivity. Qed.
+
+(* ---- why a name list may stand for a Residue -------------------------------------
+   For every operation sequence whose guards hold in the name-list layer (create: name
+   absent; remove: present; rename: old present, new absent), the object-list + dict layer
+   (Residue.atoms + Residue.map) does not raise, dict and list stay consistent (no
+   duplicate object, dict = exactly the (name, object) pairs of the list), both layers list
+   the same names in the same order, names are distinct and has_atom = list membership. *)
+Theorem C03_layers_agree : forall ops s w w', WFres s -> res_names s = w_names w ->
+  apply_ops w ops = Some w' ->
+  exists s', res_run s (map rop_of ops) = Some s' /\ WFres s' /\ res_names s' = w_names w' /\
+             NoDup (w_names w') /\ (forall n, res_has n s' = mem n (w_names w')).
+Proof. exact layers_agree. Qed.
+
+(* ... and where the remove/rename guard fails on a consistent residue, Python raises KeyError *)
+Theorem C03_layer_keyerror : forall s n x, WFres s -> ~ In n (res_names s) ->
+  res_remove n s = None /\ res_rename n x s = None.
+Proof. exact keyerror_ok. Qed.
+
+(* ---- repair_heavy + add_hydrogens accounting ---------------------------------------
+   For EVERY residue (any ordered names ns, any extra or missing atoms; no OP1/OP2 on a
+   template that says O1P/O2P, no pseudo-atom name in ns) and EVERY reference name list: if
+   the placement oracles never fail, repair_heavy (a) deletes and logs exactly the names
+   outside the reference, in order, (b) does not raise, and after add_hydrogens the residue
+   holds exactly the reference's atoms, no duplicate (N+1/C-1 are not atoms; HG of a bridged
+   cysteine is not built).  Not proved: that fuel n*n+n+1 always suffices (OUT-OF-FUEL is
+   never reached) - the loop is compared with the real one on every monitored run instead. *)
+Theorem C03_repair_add_complete : forall ref ns ssb,
+  NoDup ns -> NoDup ref -> mem "OP1" ns = false -> mem "OP2" ns = false ->
+  (forall x, In x ns -> is_pseudo x = false) ->
+  exists w logged, repair_heavy ref (fun _ _ => true) true ns = RDone w logged /\
+    logged = filter (fun a => negb (mem a ref)) ns /\
+    exists w', add_hydrogens ref (fun _ _ => true) ssb w = Some w' /\ NoDup (w_names w') /\
+      forall x, In x (w_names w') <->
+                In x ref /\ is_pseudo x = false /\ ~ (ssb = true /\ x = "HG"%string /\ ~ In x ns).
+Proof. exact repair_add_complete. Qed.
+
+(* generated: for every amino-acid template, with get_nearest_bonds as the feasibility test
+   and no neighbouring residue, the seenmap loop rebuilds the whole side chain from
+   N, CA, C, O, and any single missing side-chain atom: it cannot get stuck or raise *)
+Theorem C03_rebuild_templates_table : forall t, In t rtemplates ->
+  rebuild_from_backbone_ok t = true /\ rebuild_single_ok t = true.
+Proof. intros t. exact (rtemplates_meaning rtemplates t rtemplates_all_ok). Qed.
 
 (* apply_force_field: hits ++ misses is a permutation of the atoms (none lost, none
    duplicated); the printed list is exactly the hits *)
@@ -127,15 +193,52 @@ Example C03_nonvacuous :
    end).
 Proof. split; vm_compute; reflexivity. Qed.
 
+(* non-vacuity of the repair theorems: the ARG template is in the table with a non-trivial
+   nearest-bond list, and a residue given without CB, with an unknown atom, is repaired *)
+Example C03_nonvacuous_repair :
+  existsb (fun t => String.eqb (rt_name t) "ARG" && Nat.ltb 20 (List.length (rt_nearest t))) rtemplates = true /\
+  show_rres (repair_heavy ["N"; "CA"; "C"; "O"; "CB"; "H"; "HA"]%string (fun _ _ => true) true
+                          ["N"; "CA"; "XX"; "C"; "O"]%string)
+  = "DONE N CA C O CB | logged XX"%string.
+Proof. split; vm_compute; reflexivity. Qed.
+
+(* (placed last: the Peoe modules are imported only from here on) *)
+From PV Require Import Model.Peoe Proofs.Peoe.
+
+(* "each atom is written exactly once" also with --ligand (C16's transfer theorem, proved
+   at full strength after the ligand-loop fix): for all residue lists with distinct atom
+   identities, no atom is written twice, and every ligand atom the MOL2 file names is
+   written exactly once *)
+Theorem C03_ligand_step_once :
+  forall (P : Type) (lnames heavy : list string) (lig : list (string * P)) (rs : list (presidue P)),
+  NoDup (map (@pa_id P) (all_atoms rs)) ->
+  let names := lig_names lnames heavy lig rs in
+  NoDup (map fst (written lnames heavy lig rs)) /\
+  (forall r a p, In r rs -> selected names r = true ->
+                 In a (het_prefix (pr_atoms r)) ->
+                 lookup (pa_name a) lig = Some p ->
+                 In (pa_id a, Some p) (written lnames heavy lig rs) /\
+                 count_occ Nat.eq_dec (map fst (written lnames heavy lig rs)) (pa_id a) = 1%nat).
+Proof. intros P lnames heavy lig rs Hnd. exact (proj2 (transfer_only_ligand_holds lig lnames heavy rs Hnd)). Qed.
+
 Print Assumptions C03_certificate_sound.
 Print Assumptions C03_good_names_meaning.
+Print Assumptions C03_flip_names.
+Print Assumptions C03_alcoholic_names.
+Print Assumptions C03_water_names.
+Print Assumptions C03_layers_agree.
+Print Assumptions C03_layer_keyerror.
 Print Assumptions C03_flip_names_table.
 Print Assumptions C03_alcoholic_names_table.
 Print Assumptions C03_water_names_table.
-Print Assumptions C03_carboxylic_names_table.
+Print Assumptions C03_carboxylic_names_partial.
 Print Assumptions C03_flip_nohb_table.
 Print Assumptions C03_water_nohb_table.
 Print Assumptions C03_water_names_refuted.
+Print Assumptions C03_repair_add_complete.
+Print Assumptions C03_rebuild_templates_table.
 Print Assumptions C03_partition_no_loss_no_dup.
+Print Assumptions C03_ligand_step_once.
 Print Assumptions C03_patch_removals_table.
 Print Assumptions C03_nonvacuous.
+Print Assumptions C03_nonvacuous_repair.
